@@ -458,6 +458,23 @@ def run_cases(seed, lo, hi, extra):
         # C13 never named
         if ign and ignored_named(script, set(ign)):
             st.failures.append({"prop": "C13", "sig": "C13/action-names-ignored-attribute", **desc})
+        if ign and c["idx"] % 3 == 0 and not c["nsq"]:
+            # the API with one options dict handed to two calls (the property quantifies over diff options, not over
+            # freshly built dicts): the second call must ignore the same attributes
+            st.count("options_dict_reused")
+            try:
+                from xmldiff import main as _main
+
+                d = dict(opts)
+                _main.diff_trees(xt.to_lxml(L), xt.to_lxml(R), diff_options=d)
+                second = _main.diff_trees(xt.to_lxml(L), xt.to_lxml(R), diff_options=d)
+                s2 = [a for a in second if type(a).__name__ not in ("InsertNamespace", "DeleteNamespace")]
+                if ignored_named(s2, set(ign)):
+                    st.failures.append({"prop": "C13", "sig": "C13/action-names-ignored-attribute/second-call-same-options-dict", **desc})
+                if eq and s2:
+                    st.failures.append({"prop": "C13", "sig": "C13/ignored-only-differences-nonempty-script/second-call-same-options-dict", **desc})
+            except Exception as e:  # noqa
+                st.failures.append({"prop": "C13", "sig": f"C13/second-call-same-options-dict-raises/{real.exc_sig(e)}", **desc})
         # C04 / C05 / C17 via the strict replay of the real script
         # replay answer: "ok <flags> | <tree>" or "err k Err"
         if m_replay.startswith("err "):
